@@ -16,12 +16,12 @@ CLAIMS = {
             "the theorems, and the reference decoder is also run on the REAL builder's matrix for every (version, level) "
             "cell (differential correspondence of model and code cell by cell) and must return the input bytes.",
             "Trusted: Lean kernel (+ propext, Classical.choice, Quot.sound); native_decide for the closed checkers "
-            "templateOk/scanOk/interleaveOk/deintOk over the regenerated tables; hand model tied by "
+            "templateOk/scanOk over the regenerated tables; hand model tied by "
             "correspondence; Spec.Decode as my reading of ISO 18004 clause 11 (no error correction: exact agreement).",
             "Lean 4 theorem C01_roundtrip (symbolic, all inputs; tier K/N finite checks on regenerated tables) + reference decoder in Lean run on real symbols"),
     "C02": ('proof',
             "Lean 4: C02_built (proved end to end) — for EVERY input and legal option set, on the symbol the model of build returns the ISO reference decoder reads level/version, the codeword sequence it reads out splits into exactly the ISO Table 9 blocks (number, data sizes, EC count), the remainder bits are zero, and every block data++EC has all-zero syndromes at alpha^0..alpha^(ec-1) over GF(256)/0x11D; C02_blocks_any: the same split for ANY data buffer. Ingredients: C02_layout (ecc_to_groups = ISO Table 9, generator degree, codeword sums; decide +kernel over all 160 regenerated rows), C02_syndromes — for every version, level and EVERY content of a Table 9-sized block, data ++ EC (as computed by the model of division with the crate's generator) has all-zero syndromes at alpha^0..alpha^(ec-1): table product = field product, division loop = schoolbook remainder, remainder modulo prod(x - alpha^i) vanishes at the roots (field laws derived from the shift-and-xor definition). Spec verdict on every real symbol: Table 9 split, zero remainder bits, all syndromes zero. C02_recovery / C02_min_distance: the BCH bound is PROVED from the shift-and-xor field definition (no zero divisors, alpha of order 255, Vandermonde elimination): minimum distance ec+1, so every block of every built symbol is the unique zero-syndrome word within floor(ec/2) errors of any received word within floor(ec/2) of it — the word every bounded-distance RS decoder returns.",
-            'Trusted: Lean kernel (+ propext, Classical.choice, Quot.sound); table translator; ISO Table 9 transcription. Interleaving order = ISO order: tier N checker interleaveOk.',
+            'Trusted: Lean kernel (+ propext, Classical.choice, Quot.sound); table translator; ISO Table 9 transcription. Interleaving order = ISO order: interleaveOk evaluated by the KERNEL (one module per level) + the symbolic lemmas of Proofs/InterleaveSym (no native_decide in C02_layout / C02_blocks_any / C02_syndromes / C02_recovery; C02_built additionally rests on templateOk/scanOk, natively evaluated).',
             'Lean 4 symbolic algebra over GF(256) + decide +kernel on regenerated tables + syndrome check of real symbols'),
     "C03": ('proof',
             'Lean 4: C03_invariance — for EVERY input and every level / mask / mode / version option for which the model builder returns a symbol, the side is 17+4v and every finder, separator, timing, alignment and dark-module cell has the ISO value (blank symbol = ISO map for all 40 versions by the native_decide checker templateOk with a kernel-checked lift; data placement, format writer and all eight masks provably change only Data- and Format-typed cells); alignment grid = Annex E, no access outside size x size (C03_template_in_bounds). Spec verdict on real symbols of every version x level x mask incl. the backing array beyond size^2.',
@@ -29,7 +29,7 @@ CLAIMS = {
             'Lean 4 proof (tier N closed checkers with kernel-checked lifts + symbolic invariance through placement, format writer and masks) + differential correspondence'),
     "C04": ('proof',
             'Lean 4: all 32 format words = BCH(15,5)(level bits, mask) xor 0x5412, all 34 version words = BCH(18,6), side = 17+4v, format words distinct (decide +kernel on regenerated tables); C04_format_in_symbol — in EVERY symbol the model builder returns each position of Figure 25 (both copies) holds the corresponding bit of the BCH word of the REPORTED (level, mask) and masks never touch it; C04_version_in_symbol — in every built symbol of version 7..40 each position of Figure 26 (both copies) holds the corresponding bit of the BCH(18,6) word of the REPORTED version, whatever payload, level and mask (C04_version_cells + nothing outside encoding region and format cells ever changes); that the physically encoded level/mask/version are the reported ones is also read back by the reference decoder in C01_roundtrip; reported fields = forced options, default Q, classifier mode (C04_fields). Spec verdict on real symbols, exhaustive 4x8x40.',
-            'Trusted: Lean kernel; native_decide on versionCellsOk/templateOk/scanOk; translator; ISO figure coordinates as transcribed.',
+            'Trusted: Lean kernel; native_decide on templateOk/scanOk; translator; ISO figure coordinates as transcribed.',
             'Lean 4 decide +kernel on regenerated tables + symbolic placement theorem + exhaustive differential check'),
     "C06": ('proof',
             "Lean 4, fully symbolic, for EVERY payload of the mode's alphabet, every mode, level and version it fits: the byte-level push_bits (shifts, KEEP_LAST masks, |=, the push_u8 loop, +=) appends exactly the w low bits, most significant first, for every width <= 64 and alignment, keeps 'bits beyond len are zero' and never traps (C06_push_bits, Nat.testBit reasoning); encode::encode emits segment ++ terminator ++ bit padding ++ pad codewords (C06_segment); the first data_codewords bytes equal the independent ISO 7.4 encoder Spec.Bitstream.codewords (C06_bitstream). Tables (KEEP_LAST, pad bytes, count widths, alphanumeric values) are regenerated and checked by decide +kernel. Correspondence: push_bits scripts through the hook for every (len%8, width 0..64); data codewords read back from real symbols vs the ISO encoder.",
@@ -37,7 +37,7 @@ CLAIMS = {
             'Lean 4 symbolic proof (bit-level refinement + induction over digit/pair/byte groups) + tier K tables + differential correspondence'),
     "C07": ('proof',
             'Lean 4: LOG is the orbit of alpha modulo 0x11D, ANTILOG its inverse, each of the 13 generator literals = prod (x - alpha^i) (decide +kernel on regenerated tables); C07_table_mul — the log-domain product LOG[(e+ANTILOG[x])%255] is the field product; C07_remainder — for EVERY block content (leading / interior zeros included) the model of polynomials::division returns the schoolbook remainder of data(x)x^ec modulo the generator over table-free GF(256); C07_syndromes — hence data ++ ec vanishes at alpha^0..alpha^(ec-1); C07_emitted — for every (version, level), every data buffer and every block b of the Table 9 layout, structure() stores at sequence index data_codewords + j*blocks + b the j-th coefficient of the true remainder of that block (so the EC codewords EMITTED, not only the return value of division, are right; a seeded change in the calling loop had shown the difference). Correspondence through the hooks: structure() on arbitrary data buffers and built symbols of every layout read back by the reference decoder; real division on unit vectors at every position, zero-heavy and random blocks for every (generator, block length) in use, compared with table-free schoolbook division in Lean.',
-            'Trusted: Lean kernel (+ propext, Classical.choice, Quot.sound); translator; hand model of division tied by unit-level correspondence.',
+            'Trusted: Lean kernel (+ propext, Classical.choice, Quot.sound) ONLY — since round 8 no theorem of C07 (incl. C07_emitted, which needs the interleaving positions) uses native_decide; translator; hand model of division / structure tied by unit-level correspondence.',
             'Lean 4 symbolic algebra (field laws, loop invariant) + decide +kernel on regenerated GF tables/generators + differential unit check'),
     "C08": ("proof",
             "Lean 4, for every legal side, mask and EVERY matrix: the model sweep flips exactly the Data-typed cells where the ISO "
@@ -48,7 +48,7 @@ CLAIMS = {
             "Lean 4 symbolic induction + tier N parity checker + exhaustive differential unit check"),
     "C10": ('proof',
             "Lean 4: C10_total — for EVERY byte string and every legal option combination whose mode (forced or automatic) can represent the input, the trap-instrumented model of QRBuilder::build records no trap (every index, slice, checked subtraction, u8 +=, assert, unreachable, PERCENT_SCORE index, u32 sum of the Rust code is a trap point of the model): composed from the bit-buffer law, structure's bounds, the blank-symbol / scan / sweep checkers, placed-bit count = 8*codewords + remainder (the debug_assert), score bounds and the format writer; C10_total_auto needs no alphabet hypothesis. Real builder run with debug-assertions and overflow-checks on lengths 0..8000, every capacity boundary of the implementation's own table, every byte value in digit/alnum context.",
-            "Trusted: Lean kernel; native_decide for templateOk/scanOk/interleaveOk; hand model tied by correspondence incl. a malformed stream that validates the model's traps. Not modelled: stack/heap exhaustion.",
+            "Trusted: Lean kernel; native_decide for templateOk/scanOk; hand model tied by correspondence incl. a malformed stream that validates the model's traps. Not modelled: stack/heap exhaustion.",
             'Lean 4 proof of trap-freedom of an instrumented model (symbolic + tier K/N) + differential run with overflow checks on'),
     "C11": ("proof",
             "Lean 4: C11_documented (proved) — for every version, level and EVERY codeword sequence, with no mask forced the mask "
